@@ -128,7 +128,7 @@ void run_cases(int n, case_fn fn, void *ctx, run_opts o, FILE *out) {
         child_res r = run_child(a, b, fn, ctx, (int)tmo);
         bool clean = r.exit_code == 0 && r.sig == 0 && !san_dirty(&r.err);
         if(!clean && getenv("VF_DEBUG")) {
-            fprintf(stderr, "batch [%d,%d) not clean: exit=%d sig=%d err=%.*s\n", a, b, r.exit_code, r.sig, (int)(r.err.n > 600 ? 600 : r.err.n), (char *)r.err.p);
+            fprintf(stderr, "batch [%d,%d) not clean: exit=%d sig=%d err=%.*s\n", a, b, r.exit_code, r.sig, (int)(r.err.n > 3000 ? 3000 : r.err.n), (char *)r.err.p);
         }
         if(clean) {
             fwrite(r.out.p, 1, r.out.n, out);
